@@ -892,7 +892,11 @@ class Interp:
             except ValueError as e:
                 self.raise_(ValueError, str(e))
         mod = cls.__module__ or ''
-        if not (mod == 'fim' or mod.startswith('fim.')):
+        user_subclass = mod.startswith('contracts.') and not any(k for k in vars(cls) if not k.startswith('__') and k != '_abc_impl') and \
+            any((b.__module__ or '').startswith('fim.') for b in cls.__mro__[1:])
+        # (a class a CONTRACT derives from a fim class without overriding anything: what a user library does; every method
+        #  is looked up along the MRO in the real fim source)
+        if not (mod == 'fim' or mod.startswith('fim.') or user_subclass):
             raise Unsupported(f'instantiation of unmodelled class {mod}.{cls.__qualname__}')
         if isinstance(getattr(cls, '__fields__', None), tuple) and not isinstance(self.class_lookup(cls, '__init__')[0], types.FunctionType):
             # recordclass record type: positional / keyword fields in declaration order
